@@ -117,7 +117,7 @@ def register_wfa(reg):
         file=REALIGN, func="wfa_alignment", params=dict(seq_batch=ListT(BatchItem), qu=ListT(Opt(PAL))), modifies=["qu"],
         types=dict(WavefrontAligner=Aligner, PriorityAlignment=PAL, STR=STR),
         ghost=dict(MS=MapT(INT, INT), TS=MapT(INT, INT), ct=ListT(CigTup), q0=INT, RM=MapT(INT, INT), RB=MapT(INT, INT), RC=MapT(INT, STR)),
-        ghost_at={"after:gaf_line.tags['cg:Z:'] = cigar": "RM[it1 - 1] = match\nRB[it1 - 1] = cigar_len\nRC[it1 - 1] = cigar"},
+        ghost_at={"after:gaf_line.tags['cg:Z:'] = cigar": "RM[it1 - 1] = match\nRB[it1 - 1] = cigar_len\nRC[it1 - 1] = gaf_line.tags['cg:Z:']"},
         locals=dict(cigar=LINE, out_string=LINE, match=INT, mismatch=INT, cigar_len=INT, ins=INT, deletion=INT, soft_clip=INT),
         spec_funcs=WFA_M, alias_ok=["gaf_line"],
         requires=["q0 == len(qu)",
@@ -170,10 +170,10 @@ def register_wfa(reg):
                    "after:gaf_line.tags['cg:Z:'] = cigar": {
             # consequences of the ordered-dict update alone: proved from the quantifier-free path facts
             "cigar-replaced-in-place": {"expr": "forall(lambda t: implies(0 <= t < len(keys(rec(it1 - 1).tags)), keys(gaf_line.tags)[t] == keys(rec(it1 - 1).tags)[t] and "
-                                                "gaf_line.tags[keys(rec(it1 - 1).tags)[t]] == ite(keys(rec(it1 - 1).tags)[t] == 'cg:Z:', cigar, rec(it1 - 1).tags[keys(rec(it1 - 1).tags)[t]])))",
+                                                "gaf_line.tags[keys(rec(it1 - 1).tags)[t]] == ite(keys(rec(it1 - 1).tags)[t] == 'cg:Z:', gaf_line.tags['cg:Z:'], rec(it1 - 1).tags[keys(rec(it1 - 1).tags)[t]])))",
                                         "from": ["loop1:one-item-per-record"]},
             "number-of-fields": {"expr": "len(keys(gaf_line.tags)) == len(keys(rec(it1 - 1).tags)) + ite('cg:Z:' in rec(it1 - 1).tags, 0, 1)", "from": ["loop1:one-item-per-record"]},
-            "cigar-key-position": "gaf_line.tags['cg:Z:'] == cigar and implies('cg:Z:' not in rec(it1 - 1).tags, len(keys(gaf_line.tags)) == len(keys(rec(it1 - 1).tags)) + 1 and "
+            "cigar-key-position": "'cg:Z:' in gaf_line.tags and implies('cg:Z:' not in rec(it1 - 1).tags, len(keys(gaf_line.tags)) == len(keys(rec(it1 - 1).tags)) + 1 and "
                                   "keys(gaf_line.tags)[len(keys(rec(it1 - 1).tags))] == 'cg:Z:')"},
                    "before:cigar = aligner.cigarstring.replace(": {
             "match-count-is-the-sum-of-=-runs": "match == MS[len(ct)] and same(ct, res.cigartuples)",
